@@ -497,6 +497,7 @@ fn parse_call(t: &mut Toks) -> (String, Vec<Vec<u8>>) {
             "setTransferRole"
         }
         "sftSetup" => "sftSetup",
+        "sftIssued" => "sftIssued",
         other => other,
     };
     (func.to_string(), args)
@@ -637,6 +638,9 @@ impl World {
         if func == "sftSetup" {
             return self.sft_setup();
         }
+        if func == "sftIssued" {
+            return self.sft_issued();
+        }
         self.set_block(env.round, env.epoch);
         verif_hooks::with(|h| {
             h.budget = Some(env.budget.unwrap_or(20_000));
@@ -750,6 +754,22 @@ impl World {
 
     /// environment action: the SFT collection exists, the contract holds its roles, the three
     /// set-up flags are set (what the repository's own tests do by writing storage directly)
+    /// implementation-only environment action: what a successful `issueMysterySft` round trip to the system
+    /// contract leaves behind (collection identifier stored, creation roles on the contract account) and nothing
+    /// else; `createInitialSfts` can then be executed — or refused — through normal endpoint dispatch
+    fn sft_issued(&mut self) -> String {
+        let a = VMAddress::from(addr_bytes(LP_ID));
+        let owner_roles: Vec<Vec<u8>> = vec![
+            b"ESDTRoleNFTCreate".to_vec(),
+            b"ESDTRoleNFTAddQuantity".to_vec(),
+            b"ESDTRoleNFTBurn".to_vec(),
+        ];
+        let acc = self.r.blockchain_mock.state.accounts.get_mut(&a).unwrap();
+        acc.esdt.set_roles(b"MYSTERY-123456".to_vec(), owner_roles);
+        acc.storage.insert(b"mysterySftTokenId".to_vec(), b"MYSTERY-123456".to_vec());
+        format!("R ok {}", empty_out())
+    }
+
     fn sft_setup(&mut self) -> String {
         let a = VMAddress::from(addr_bytes(LP_ID));
         let owner_roles: Vec<Vec<u8>> = vec![
